@@ -54,7 +54,7 @@ Embedded(g, n) == LET ov == OwnTermValue(g) IN With(BaseV(g, n), ov[1], ov[2])
 
 \* ---- shapes per kind: <<shape-name, value>> --------------------------------
 ItemShapes(deep) ==
-  { <<"iri", I1>>, <<"iri-quoted", Iri(Base \o "a\"b\\c")>>, <<"object", Note1>>, <<"actor", Person1>>, <<"untyped", Untyped>>, <<"id-only", IdOnly>>, <<"link", Link1>>,
+  { <<"iri", I1>>, <<"iri-quoted", Iri(Base \o "a\"b\\c")>>, <<"iri-fragment", Iri("https://example.com#me")>>, <<"iri-port-query-fragment", Iri("https://example.com:8443?x=1#k")>>, <<"object", Note1>>, <<"actor", Person1>>, <<"untyped", Untyped>>, <<"id-only", IdOnly>>, <<"link", Link1>>,
     <<"list2-iri", ListOf(<<I1, I2>>)>>, <<"list1-iri", ListOf(<<I1>>)>>, <<"list-mixed", ListOf(<<I1, Note1, Link1>>)>>,
     <<"list1-object", ListOf(<<Note1>>)>> }
   \cup (IF deep THEN {<<"embedded-" \o g, Embedded(g, 11)>> : g \in GoTypes} ELSE {})
